@@ -145,6 +145,13 @@ func checkC02(w *World, r *Report) {
 			r.Undecided("V-9", "overlay-writes", "fewer than 5 overlay writes found in consensus context")
 		}
 	}
+	// V-10: a contract transaction that fails moves no value: the EVM's changes are
+	// reverted to the snapshot taken before the transaction before the wrapper
+	// writes anything back (the fee of a failed transaction is charged to nobody
+	// because nobody is credited for it) (C05 A-4)
+	if r.importObs(w, func(t *Report) { a4(w, t) }, "A-4", "V-10") < 2 {
+		r.Undecided("V-10", "evm-failure", "the EVM failure-handling rules (C05 A-4) matched fewer than 2 constructs")
+	}
 	r.Floor("V-1", 14, "writers of value-carrying fields")
 	r.Floor("V-2", 10, "debit/credit pairs")
 	r.Floor("V-3", 4, "sign and sufficiency guards")
